@@ -1108,6 +1108,18 @@ fn item_tables(run: &mut Run) {
                     run.fail("c16-item-default", format!("[{section}] {k}: nothing given => {default_shown}, the documented default \"{documented}\" is {d}"));
                 }
             }
+            // a colour given as six hexadecimal digits is that colour (red, green, blue in this order)
+            if section == "theme-colors" {
+                for (text, want) in [("0a1b2c", "Rgb(10, 27, 44)"), ("ff0080", "Rgb(255, 0, 128)")] {
+                    for cli in [true, false] {
+                        let r = if cli { render(Some((k, text)), None) } else { render(None, Some((k, text))) };
+                        match r.and_then(|r| lookup(&r, &f)) {
+                            Some(got) if got != want => run.fail("c16-item-value", format!("[{section}] {k} = \"{text}\" ({}): effective value {got}, expected {want}", if cli { "cli" } else { "file" })),
+                            _ => run.count("items:hex-colour"),
+                        }
+                    }
+                }
+            }
             for (what, cli, file, want) in cases {
                 let Some(got) = render(cli, file) else {
                     run.count(&format!("items:{section}:rejected"));
